@@ -289,6 +289,11 @@ func run(s *kernel.Sim, c *scen.Case) {
 	var partial []byte // frame data handed out for a message that did not complete
 	var recvErr error
 	backMsg := []byte("from-B-to-A")
+	const backSecret = "s3cr3t-from-B"
+	secretFirst := t.Chance("secret-first", 1, 3)
+	if secretFirst {
+		s.Probe("secret-before-transcript")
+	}
 	var backGot []byte
 	var backErr error
 	s.Go("A", func() {
@@ -299,6 +304,12 @@ func run(s *kernel.Sim, c *scen.Case) {
 			panic(err)
 		}
 		a.SetFilter(ff)
+		if secretFirst {
+			if sv, err := sa.GetSecret(ctx); err != nil || sv != backSecret {
+				backErr = fmt.Errorf("secret from B: %q, %v", sv, err)
+				return
+			}
+		}
 		backGot, backErr = sa.ReceiveCompleteMessage(ctx)
 		for mi, m := range fam {
 			off := 0
@@ -324,6 +335,14 @@ func run(s *kernel.Sim, c *scen.Case) {
 		}
 		if err := sb.SetSymmetricKey(key); err != nil {
 			panic(err)
+		}
+		if secretFirst {
+			// a secret travels first, on streams that are already encrypting: the per-stream
+			// secret toggle must leave both of them encrypting for everything that follows
+			if err := sb.PutSecret(ctx, backSecret); err != nil {
+				recvErr = err
+				return
+			}
 		}
 		if err := sb.SendMessage(ctx, backMsg); err != nil {
 			recvErr = err
